@@ -29,6 +29,29 @@ def optimized(modname, desc, tier, timeout=600):
     return call(modname, ("__optimized__", tuple(desc)), tier, timeout=timeout, env={"PYTHONOPTIMIZE": "1"})
 
 
+def debug_logging(modname, desc, tier, timeout=600):
+    """Run mod.run_shard(desc, tier) in an interpreter whose root logger is set to DEBUG with a handler that formats every record
+    (an application started with logging.basicConfig(level=logging.DEBUG)): what the code under test does only "when somebody is
+    listening" is done. Findings are reported under 'debug-logging:<signature>' with witness["debug_logging"] = True."""
+    return call(modname, ("__debuglog__", tuple(desc)), tier, timeout=timeout)
+
+
+def replay_debug_logging(modname, w):
+    rr = call(modname, ("__debuglog_replay__", {k: v for k, v in w.items() if k != "debug_logging"}), "quick")
+    return bool(rr.viol), {"violations": sorted(rr.viol), "texts": [v[2][:300] for v in rr.viol.values()], "notes": rr.notes[:1]}
+
+
+def _listen_to_everything():
+    import logging
+
+    class Sink(logging.Handler):
+        def emit(self, record):
+            self.format(record)  # (arguments are rendered, as a real handler would)
+
+    logging.basicConfig(level=logging.DEBUG, handlers=[Sink()], force=True)
+    logging.getLogger("asyncio").setLevel(logging.WARNING)  # (the loop's own chatter is not the library's)
+
+
 def replay_optimized(modname, w):
     """Replay a witness found under python -O in such an interpreter. Returns (reproduced, details) like mod.replay."""
     rr = call(modname, ("__replay__", {k: v for k, v in w.items() if k != "optimize"}), "quick", env={"PYTHONOPTIMIZE": "1"})
@@ -49,6 +72,16 @@ def main():
         r = mod.run_shard(tuple(desc[1]), tier)
         if sys.flags.optimize:
             r.viol = {"python-O:" + k: (v[0], dict(v[1], optimize=True), "with assert statements compiled away (python -O): " + v[2]) for k, v in r.viol.items()}
+    elif desc[0] == "__debuglog__":
+        _listen_to_everything()
+        r = mod.run_shard(tuple(desc[1]), tier)
+        r.viol = {"debug-logging:" + k: (v[0], dict(v[1], debug_logging=True), "with the root logger at DEBUG: " + v[2]) for k, v in r.viol.items()}
+    elif desc[0] == "__debuglog_replay__":
+        _listen_to_everything()
+        r = R()
+        hit, detail = mod.replay(desc[1])
+        if hit:
+            r.violation("replayed", desc[1], str(detail)[:300])
     elif desc[0] == "__replay__":
         r = R()
         hit, detail = mod.replay(desc[1])
